@@ -14,7 +14,7 @@ FUNCTIONS = [
 BOUNDS = {
     "rows": "one table holding an autosomal, an X and a Y row at once (+ X/Y rows with symbolic coordinates when a PAR genome is given)",
     "n": "symbolic integer 0..12 per row",
-    "purity": "symbolic real in (0,1) on the purity path; 1 and None as configurations",
+    "purity": "symbolic real in [0.01, 1) on the purity path (below that the float64 inversion cancels catastrophically); 1 and None as configurations",
     "ploidy": "1..6 (concrete per configuration)",
     "log2": "defined by exp2(L) = (p*n + (1-p)*x)/r for the inversion clauses; free real in [-30, 30] for the non-negativity clause",
     "PAR": "X/Y start,end symbolic in [0, 2*10^8]: the solver picks inside PAR1, inside PAR2, straddling, outside",
@@ -95,7 +95,7 @@ def h_invert(ctx, ploidy, hapx, female, naming, genome, purity_mode, symrow=None
     chroms, starts, ends, classes = build(ctx, naming, genome, symrow)
     classes = resolve_classes(ctx, classes, starts, ends, genome)
     if purity_mode == "sym":
-        p = ctx.real("p", 0, 1, lo_open=True, hi_open=True)
+        p = ctx.real("p", 0.01, 1, hi_open=True)
     else:
         p = purity_mode  # 1.0 or None
     pe = 1.0 if p is None else p
@@ -154,7 +154,7 @@ def h_nonneg(ctx, ploidy, hapx, female, naming, genome, purity_mode, symrow=None
         coords = ctx.choice("coords", rep_coords(genome, symrow))
     chroms, starts, ends, classes = build(ctx, naming, genome, symrow, coords)
     if purity_mode == "sym":
-        p = ctx.real("p", 0, 1, lo_open=True, hi_open=True)
+        p = ctx.real("p", 0.01, 1, hi_open=True)
     else:
         p = purity_mode
     Ls = [ctx.real(f"L{i}", -30, 30) for i in range(len(chroms))]
@@ -195,6 +195,8 @@ def _cfgs(quick_ploidies=(1, 2, 3, 4), genomes_quick=(None, "grch38")):
                             if genome and pm != "sym" and naming == "plain":
                                 continue  # pure path ignores the genome; one naming suffices
                             quick = ploidy in quick_ploidies and genome in genomes_quick and (naming == "chr" or (genome is None and pm == "sym"))
+                            if genome == "grch37" and ploidy == 2 and pm == "sym" and naming == "chr":
+                                quick = True
                             c = {"ploidy": ploidy, "hapx": hapx, "female": female, "naming": naming, "genome": genome, "purity_mode": pm}
                             if not quick:
                                 c["tier"] = "thorough"
@@ -212,9 +214,10 @@ HARNESSES = [
         h_invert,
         _cfgs(),
         covers=["class auto", "class x", "class y", "class parx", "r=0 row", "floored"],
-        wall_s=120,
-        thorough_wall_s=600,
+        wall_s=240,
+        thorough_wall_s=900,
         keep_uf=True,
+        query_timeout_ms=40000,
     ),
-    Harness("nonneg", h_nonneg, _cfgs(), covers=["reached", "clipped-at-zero"], wall_s=120, thorough_wall_s=600, keep_uf=True),
+    Harness("nonneg", h_nonneg, _cfgs(), covers=["reached", "clipped-at-zero"], wall_s=240, thorough_wall_s=900, keep_uf=True, query_timeout_ms=40000),
 ]
